@@ -385,6 +385,9 @@ def inv_c07(model, real, ops, tier):
             [("D", p) for p in PATHS if p in model.wt and p in model.commits[-1]] + \
             [("W", p, FRESH) for p in IGNORED]
     seqs = [[e] for e in edits]
+    # file times must not matter: the same content change arriving with a modification time far in
+    # the past (mv of an older file, cp -p, tar x)
+    seqs += [[("W", e[1], e[2], "old-mtime")] for e in edits if e[0] == "W"]
     if tier == "thorough":
         seqs += [[e1, e2] for e1 in edits for e2 in edits if e1[1] < e2[1]]
     trial = [0]
@@ -392,7 +395,7 @@ def inv_c07(model, real, ops, tier):
     def fresh(e):
         if e[0] == "W" and e[2] == FRESH:
             trial[0] += 1
-            return ("W", e[1], "%s-%s-%d" % (FRESH, len(ops), trial[0]))
+            return ("W", e[1], "%s-%s-%d" % (FRESH, len(ops), trial[0])) + tuple(e[3:])
         return e
     for seq in seqs:
         seq = [fresh(e) for e in seq]
@@ -404,6 +407,8 @@ def inv_c07(model, real, ops, tier):
             fp = r.path(e[1])
             if e[0] == "W":
                 r.write(e[1], sc.content(e[2]))
+                if len(e) > 3:
+                    os.utime(fp, (1_000_000_000, 1_000_000_000))
             elif os.path.isfile(fp):
                 os.unlink(fp)
         want = image([e[1] for e in seq if e[1] not in IGNORED])
@@ -486,8 +491,11 @@ def size_task(task):
         edits.append(("append", data + b"!"))
         if size > 1:
             edits.append(("truncate-last", data[:-1]))
+        edits += [(n + "+old-mtime", d) for n, d in edits[:2] + edits[-2:]]   # file times must not matter
         for name, newdata in edits:
             r.write(path, newdata)
+            if name.endswith("+old-mtime"):
+                os.utime(r.path(path), (1_000_000_000, 1_000_000_000))
             got = targets()
             evals += 1
             if got != want:
